@@ -27,7 +27,7 @@ RULE = (
     "(languages drawn so that some are shared, some added, some removed; figures 0..1e6); findings: 0..25 functions "
     "> 30 plus shorter ones (overloads: several functions of one name in a file), full/not full, repository yes/no. Every case is rendered in text and Markdown "
     "on a 400-column console; reports with 4..7-digit figures are also rendered as text at 80 / 100 / 120 columns, where every figure and annotation must still appear in full. "
-    "Non-trivial = (overview) a previous report sharing >= 1 language with a changed figure, or (findings) more than "
+    "`scan` itself is run on generated trees of 8..203 files and its printed overview compared with the totals it stored. Non-trivial = (overview) a previous report sharing >= 1 language with a changed figure, or (findings) more than "
     "10 findings; distinct by digest of the case"
 )
 ASSUMPTIONS = [
